@@ -9,6 +9,10 @@
 //!   commit                    begin_write + staged ops + commit
 //!   index <l> <k>             create_index on the `with` database only
 //!   compact | reopen | reopen!          (reopen = checkpoint_on_close + open, reopen! = drop + open)
+//!   bulknode <first> <count> <l> <k> <mod> <pad>     stage `count` creates, node first+j gets k = bulk_val((first+j) % mod, pad)
+//!   bulkset <first> <count> <k> <mod> <shift> <pad>  stage SET k = bulk_val((id+shift) % mod, pad) on ids first‥first+count-1
+//!   bulkrem <first> <count> <step> <k>               stage REMOVE k on ids first, first+step, … (count of them)
+//!   bq <m|w> <l> <k> <j> <pad>                       q with the value bulk_val(j, pad)
 //!   q <m|w> <l[:l…]> <k=val[,k=val…]>   MATCH (n:l… {k:$v…}) RETURN n   /  … WHERE n.k = $v …
 use super::{State, StreamDef, no_child};
 use crate::rng::Rng;
@@ -178,6 +182,11 @@ impl S {
     }
 }
 
+/// value of the growth profiles: "k<j>" followed by `pad` times 'x' (same function in Driver/Index.lean)
+fn bulk_val(j: u64, pad: usize) -> PropertyValue {
+    PropertyValue::String(format!("k{}{}", j, "x".repeat(pad)))
+}
+
 fn parse_props(s: &str) -> Option<Vec<(String, PropertyValue)>> {
     let mut out = Vec::new();
     for part in s.split(',') {
@@ -218,6 +227,49 @@ impl State for S {
                 let Ok(n) = n.parse() else { return "bad-op".into() };
                 self.staged.push(Staged::Del(n));
                 "ok".into()
+            }
+            ["bulknode", first, count, l, k, m, pad] => {
+                let (Ok(first), Ok(count), Ok(m), Ok(pad)) =
+                    (first.parse::<u32>(), count.parse::<u32>(), m.parse::<u64>(), pad.parse::<usize>())
+                else {
+                    return "bad-op".into();
+                };
+                for j in 0..count {
+                    self.staged.push(Staged::Node(Some(l.to_string())));
+                    self.staged.push(Staged::Set(first + j, k.to_string(), bulk_val((first + j) as u64 % m.max(1), pad)));
+                }
+                "ok".into()
+            }
+            ["bulkset", first, count, k, m, shift, pad] => {
+                let (Ok(first), Ok(count), Ok(m), Ok(shift), Ok(pad)) = (
+                    first.parse::<u32>(),
+                    count.parse::<u32>(),
+                    m.parse::<u64>(),
+                    shift.parse::<u64>(),
+                    pad.parse::<usize>(),
+                ) else {
+                    return "bad-op".into();
+                };
+                for id in first..first + count {
+                    self.staged.push(Staged::Set(id, k.to_string(), bulk_val((id as u64 + shift) % m.max(1), pad)));
+                }
+                "ok".into()
+            }
+            ["bulkrem", first, count, step, k] => {
+                let (Ok(first), Ok(count), Ok(step)) = (first.parse::<u32>(), count.parse::<u32>(), step.parse::<u32>()) else {
+                    return "bad-op".into();
+                };
+                for j in 0..count {
+                    self.staged.push(Staged::Rem(first + j * step, k.to_string()));
+                }
+                "ok".into()
+            }
+            ["bq", form, l, k, j, pad] => {
+                let (Ok(j), Ok(pad)) = (j.parse::<u64>(), pad.parse::<usize>()) else { return "bad-op".into() };
+                let props = vec![(k.to_string(), bulk_val(j, pad))];
+                let (w, seek) = self.with.query(form, &[*l], &props);
+                let (wo, _) = self.without.query(form, &[*l], &props);
+                format!("{} | w={} wo={} {}", if w == wo { "same" } else { "diff" }, w, wo, if seek { "seek" } else { "scan" })
             }
             ["commit"] => {
                 let ops = std::mem::take(&mut self.staged);
@@ -368,11 +420,91 @@ fn gen_query(rng: &mut Rng, out: &mut dyn Write, idx_label: &str, idx_key: &str,
     writeln!(out, "q {} {} {}", form, labels.join(":"), props.join(",")).unwrap();
 }
 
+/// every distinct value of a growth profile, looked up with and without the index, both query forms
+fn grow_queries(out: &mut dyn Write, modulus: u64, pad: usize, extra: &[u64]) -> usize {
+    let mut n = 0;
+    for j in (0..modulus).chain(extra.iter().copied()) {
+        writeln!(out, "bq {} A p {} {}", if j % 3 == 0 { "w" } else { "m" }, j, pad).unwrap();
+        n += 1;
+    }
+    n
+}
+
+/// after the reopen: a write of an existing value (new node + SET on an old node), a new value, a
+/// removal — then every value again
+fn grow_after_reopen(out: &mut dyn Write, nodes: u32, modulus: u64, pad: usize) -> usize {
+    writeln!(out, "bulknode {} 2 A p {} {}", nodes, modulus, pad).unwrap();
+    writeln!(out, "bulkset 0 3 p {} 1 {}", modulus, pad).unwrap();
+    writeln!(out, "bulkset 5 1 p 1000 995 {}", pad).unwrap(); // (5+995)%1000 = 0: the existing value k0
+    writeln!(out, "bulkset 6 1 p 2000 1001 {}", pad).unwrap(); // (6+1001)%2000 = 1007: a value nobody had
+    // the largest existing value: through a stale root it would land at the end of the leftmost leaf
+    writeln!(out, "bulkset 9 1 p {} {} {}", modulus, (2 * modulus - 1 - 9 % modulus) % modulus, pad).unwrap();
+    writeln!(out, "bulkrem 7 2 4 p").unwrap();
+    writeln!(out, "commit").unwrap();
+    7 + grow_queries(out, modulus, pad, &[1007])
+}
+
+/// growth profiles: the index B-tree root splits through each kind of index operation, in commits where
+/// the splitting operation is not the last one; then reopen, post-reopen writes, every value looked up.
+/// Short values: ~8 KiB leaf / ~30 B per entry ⇒ first root split around 270 entries.  Long values
+/// (pad 3000): two entries per leaf and two separators per internal page ⇒ root splits every few inserts.
+fn gen_growth_cases(out: &mut dyn Write) -> usize {
+    let mut n = 0;
+    let case = |out: &mut dyn Write, name: &str| writeln!(out, "#case {}", name).unwrap();
+    // 1. Insert: one commit creates 330 indexed nodes (a non-last op splits the root)
+    case(out, "grow-insert");
+    writeln!(out, "index A p\nbulknode 0 330 A p 8 0\ncommit").unwrap();
+    n += 3 + grow_queries(out, 8, 0, &[]);
+    writeln!(out, "reopen").unwrap();
+    n += 1 + grow_after_reopen(out, 330, 8, 0);
+    writeln!(out, "reopen!").unwrap();
+    n += 1 + grow_queries(out, 8, 0, &[1007]);
+    // 2. Update: few long-valued nodes, then overwrite rounds (deletes never reclaim space: every SET
+    //    consumes leaf space, the splits happen inside Update operations only)
+    case(out, "grow-update");
+    writeln!(out, "index A p\nbulknode 0 12 A p 4 3000\ncommit").unwrap();
+    n += 3;
+    for round in 1..6u64 {
+        writeln!(out, "bulkset 0 12 p 4 {} 3000\ncommit", round).unwrap();
+        n += 2;
+    }
+    n += grow_queries(out, 4, 3000, &[]);
+    writeln!(out, "reopen").unwrap();
+    n += 1 + grow_after_reopen(out, 12, 4, 3000);
+    // 3. Update, short values: 60 nodes, overwrite rounds in single commits until the root has split
+    case(out, "grow-update-short");
+    writeln!(out, "index A p\nbulknode 0 60 A p 6 0\ncommit").unwrap();
+    n += 3;
+    for round in 1..8u64 {
+        writeln!(out, "bulkset 0 60 p 6 {} 0\ncommit", round).unwrap();
+        n += 2;
+    }
+    writeln!(out, "reopen").unwrap();
+    n += 1 + grow_after_reopen(out, 60, 6, 0);
+    // 4. Remove after growth, then more growth (mixed commit: creates + SETs + REMOVEs)
+    case(out, "grow-mixed");
+    writeln!(out, "index A p\nbulknode 0 200 A p 5 0\ncommit").unwrap();
+    writeln!(out, "bulkrem 0 40 3 p\nbulkset 100 100 p 5 2 0\nbulknode 200 150 A p 5 0\nset 3 q i1\ncommit").unwrap();
+    n += 8 + grow_queries(out, 5, 0, &[]);
+    writeln!(out, "reopen").unwrap();
+    n += 1 + grow_after_reopen(out, 350, 5, 0);
+    // 5. backfill: the data first, the index afterwards (create_index splits the root while backfilling)
+    case(out, "grow-backfill");
+    writeln!(out, "bulknode 0 330 A p 8 0\ncommit\nindex A p").unwrap();
+    n += 3 + grow_queries(out, 8, 0, &[]);
+    writeln!(out, "reopen").unwrap();
+    n += 1 + grow_after_reopen(out, 330, 8, 0);
+    case(out, "grow-backfill-long");
+    writeln!(out, "bulknode 0 14 A p 4 3000\ncommit\nindex A p\nreopen").unwrap();
+    n += 4 + grow_after_reopen(out, 14, 4, 3000);
+    n
+}
+
 fn generate(rng: &mut Rng, n: usize, tier: &str, out: &mut dyn Write) {
     // n = approximate number of op lines
     let max_ops = if tier == "thorough" { 60 } else { 24 };
     let mut case = 0usize;
-    let mut emitted = 0usize;
+    let mut emitted = gen_growth_cases(out);
     while emitted < n {
         writeln!(out, "#case g{}", case).unwrap();
         let mut buf: Vec<u8> = Vec::new();
